@@ -25,6 +25,9 @@ let seq_op tok =
   | ["SW"; v; w] -> OSwap (n v, n w)
   | ["U"; v] -> OUnify (n v)
   | ["X"; v] -> ODestroy (n v)
+  | ["AD"; v; o] -> OAdopt (n v, n o)
+  | ["AZ"; v] -> OAssignNull (n v)
+  | ["OA"; v; w] -> OObjAssign (n v, n w)
   | _ -> failwith ("bad seq op " ^ tok)
 
 let conc_ev tok =
@@ -54,7 +57,7 @@ let () =
       let line = input_line ic in
       match List.filter (fun s -> s <> "") (split ' ' line) with
       | "seq" :: kinds :: toks ->
-        (* one letter per handle variable: M default deleter, C default deleter on const T, N no-operation deleter *)
+        (* one letter per handle variable: M, C (const T), B (base class): default deleter; N: no-operation deleter *)
         let nodel v = let i = int_of_nat v in i < String.length kinds && kinds.[i] = 'N' in
         let ops = List.map seq_op toks in
         let (outs, fin) = run_case nodel (nat_of_int (String.length kinds)) ops in
